@@ -94,6 +94,7 @@ func c10Check(r *vkit.Run, in c10Input, replay []int) {
 	// conservation, stated on its own: per step, counts over all series add up to the samples in the window
 	outcomes := map[string]bool{}
 	body := func(c *vsched.Ctx) {
+		r.BeginChoices("C10", in, c.Prefix())
 		res := evalEngineCtx(c, mockq.New(data), expr.Text(), start, end, time.Duration(step))
 		r.Eval()
 		outcomes[res.String()] = true
